@@ -4,6 +4,7 @@ package main
 // always resolved through type information, never by source text.
 
 import (
+	"go/ast"
 	"go/constant"
 	"go/token"
 	"go/types"
@@ -558,4 +559,40 @@ func proxyRoot(fn *ssa.Function) *ssa.Function {
 		}
 	}
 	return top
+}
+
+// resolveUp follows v to where it was decided: through conversions between
+// function types, through a function literal's captured value to the value
+// captured, and through a parameter of a private function with exactly one
+// (static) caller to what that caller passes.
+func (p *Prog) resolveUp(v ssa.Value) ssa.Value {
+	for depth := 0; depth < 8; depth++ {
+		switch x := v.(type) {
+		case *ssa.ChangeType:
+			v = x.X
+			continue
+		case *ssa.FreeVar:
+			if b := resolveFree(x); b != ssa.Value(x) {
+				v = b
+				continue
+			}
+		case *ssa.Parameter:
+			fn := x.Parent()
+			if nil == fn || nil != fn.Parent() || !inModule(fn) || ast.IsExported(fn.Name()) {
+				return v
+			}
+			cs := p.callersOf(fn)
+			if 1 != len(cs) || 1 != len(p.usesOfFunc(fn)) {
+				return v
+			}
+			idx := paramIndex(fn, x)
+			if idx < 0 || idx >= len(cs[0].Common().Args) {
+				return v
+			}
+			v = cs[0].Common().Args[idx]
+			continue
+		}
+		return v
+	}
+	return v
 }
